@@ -195,6 +195,14 @@ def run_deepstack_unit(unit, res, c, progress):
                 got["stack"] = adebug.format_asynq_stack()
             except BaseException as e:
                 got["stack_exc"] = e
+            # dump() of the root task (blocked on the whole chain) and of the scheduler, from down here
+            for what, fn in (("task.dump()", lambda: got["root_task"].dump()), ("scheduler.dump()", lambda: asynq.scheduler.get_scheduler().dump())):
+                try:
+                    fn()
+                    got.setdefault("dumps", 0)
+                    got["dumps"] += 1
+                except BaseException as e:
+                    got["dump_exc"] = (what, e)
             if fail:
                 raise UserErr("deep boom")
             return 0
@@ -254,7 +262,8 @@ def run_deepstack_unit(unit, res, c, progress):
             got.clear()
             err = None
             try:
-                lvl_deep(d, fail)
+                got["root_task"] = lvl_deep.asynq(d, fail)
+                got["root_task"].value()
             except UserErr as e:
                 err = e
             except BaseException as e:
@@ -271,6 +280,9 @@ def run_deepstack_unit(unit, res, c, progress):
                 viol.append(("format_asynq_stack", {"entries": None if got.get("stack") is None else len(got["stack"]), "expected": d + 1}))
             elif not all("lvl_deep" in s_ for s_ in got["stack"]):
                 viol.append(("format_asynq_stack", {"entries_not_naming_the_task": sum(1 for s_ in got["stack"] if "lvl_deep" not in s_)}))
+            c["dumps_from_the_bottom_of_a_deep_chain"] = c.get("dumps_from_the_bottom_of_a_deep_chain", 0) + got.get("dumps", 0)
+            if "dump_exc" in got:
+                viol.append(("dump-raised", {"call": got["dump_exc"][0], "exc": exc_desc(got["dump_exc"][1])}))
             if fail:
                 if err is None:
                     viol.append(("chain-error-did-not-escape", {}))
